@@ -11,7 +11,7 @@ from . import common
 
 META = {
     'design_ref': 'DESIGN.md §5 C02',
-    'technique': "writer/reader agreement decided on automata: dump template extracted from _dump_format (marker-aware rstrip, strip-loss hazard), instantiated with the property's value grammar, split into reader lines and pushed through the reader's line classes, which are read off the paths of _internal_parser with locals substituted away (marked-language capture agreement for key and first line); _skip_useless_lines as a language-level filter per input type and position (bytes/str twins compared as languages); split_gpg_and_payload and the key side of validate_input decided on paths with locals substituted away (payload normalisation per append path, separator choice and accepted field names as languages); injectivity of the writer under constant substitutions on the value (automaton witness v, v.replace(old,new) both in the domain); who-may-call rule: the paragraph splitter only receives lines that went through the comment / blank-line filter; dataflow rule: the encoding that turns text lines into bytes reaches the decoder; piecewise-encoding rule: every str.encode reached per piece (loop, comprehension, generator, helper) uses a decided signature-free codec; the constructor of the signed-document classes interpreted under the calling conventions for text and bytes lines (line codec = decoding codec; every line reaches the armor splitter); class-level containers are not changed through an instance; the paragraph parser interpreted (sa.heap, CPython regex engine on decided lines) on whole texts in three input forms -- fields without value, values on the following lines, comment and blank lines -- against the fields the text shows (the language-level rules are a second opinion behind it when the loop leaves their vocabulary); no regex flag at the position of maxsplit / count",
+    'technique': "writer/reader agreement decided on automata: dump template extracted from _dump_format (marker-aware rstrip, strip-loss hazard), instantiated with the property's value grammar, split into reader lines and pushed through the reader's line classes, which are read off the paths of _internal_parser with locals substituted away (marked-language capture agreement for key and first line); _skip_useless_lines as a language-level filter per input type and position (bytes/str twins compared as languages); split_gpg_and_payload and the key side of validate_input decided on paths with locals substituted away (payload normalisation per append path, separator choice and accepted field names as languages); injectivity of the writer under constant substitutions on the value (automaton witness v, v.replace(old,new) both in the domain); who-may-call rule: the paragraph splitter only receives lines that went through the comment / blank-line filter; dataflow rule: the encoding that turns text lines into bytes reaches the decoder; piecewise-encoding rule: every str.encode reached per piece (loop, comprehension, generator, helper) uses a decided signature-free codec; the constructor of the signed-document classes interpreted under the calling conventions for text and bytes lines (line codec = decoding codec; every line reaches the armor splitter); class-level containers are not changed through an instance; the paragraph parser interpreted (sa.heap, CPython regex engine on decided lines) on whole texts in three input forms -- fields without value, values on the following lines, comment and blank lines -- against the fields the text shows (the language-level rules are a second opinion behind it when the loop leaves their vocabulary); no regex flag at the position of maxsplit / count; the constructors of the generic and of the signed-document classes interpreted end to end on one paragraph in five input forms (text, bytes, lines with and without line ends, lines of bytes), plain, clearsigned, behind a comment line, with comment lines between the fields, behind blank lines: the same fields",
     'level_text': 'Static decision for all keys/values of the stated grammar: every dumped line is routed by the reader\'s '
                   'regex cascade to the intended branch, the key and the trimmed first line are captured exactly, continuation '
                   'lines are kept verbatim, no line is taken as separator/PGP/comment; both newline conventions.  Structural '
